@@ -257,3 +257,46 @@ def model(scn):
     f = dict(x.split("=", 1) for x in line.split(" "))
     return {"exit": int(f["exit"]), "errors": int(f["errors"]), "complete": f["complete"] == "true",
             "ops": [o for o in f["ops"].split(",") if o]}
+
+
+def write_fault_sweep(build, work, limits=None, tag="wf"):
+    """Compile a program whose font is a few tens of KB under a file-size limit (SIGXFSZ ignored, so the write that passes
+    the limit fails with EFBIG) at several positions of the output, in particular inside the last tables, after which
+    the compiler still rewrites the directory and the head table in place. Returns a list of
+    (limit, exit status, output exists, error-135 reported, other files changed)."""
+    import resource
+    import signal
+    import random
+    import gen
+    d = os.path.join(work, tag)
+    shutil.rmtree(d, ignore_errors=True)
+    os.makedirs(d)
+    prog = gen.gen_match_program(random.Random(5), nglyphs=40, npasses=3, size="medium")
+    gen.write_case(prog, d)
+    env = dict(os.environ, GDLPP=build["gdlpp"])
+    p = subprocess.run([build["grcompiler"], "-q", "p.gdl", "in.ttf", "out.ttf"], cwd=d, env=env, capture_output=True)
+    if p.returncode != 0 or not os.path.exists(os.path.join(d, "out.ttf")):
+        return None, []
+    size = os.path.getsize(os.path.join(d, "out.ttf"))
+    os.unlink(os.path.join(d, "out.ttf"))
+    if limits is None:
+        limits = sorted(set([1000, size // 4, size // 2, 3 * size // 4] + [size - k for k in (1, 4, 12, 40, 100, 300, 700, 1200, 2000, 3000, 4500)]))
+    out = []
+    for lim in limits:
+        if lim <= 0 or lim >= size:
+            continue
+
+        def pre(lim=lim):
+            signal.signal(signal.SIGXFSZ, signal.SIG_IGN)
+            resource.setrlimit(resource.RLIMIT_FSIZE, (lim, lim))
+        for fn in ("out.ttf", "gdlerr.txt"):
+            if os.path.exists(os.path.join(d, fn)):
+                os.unlink(os.path.join(d, fn))
+        before = snapshot(d)
+        p = subprocess.run([build["grcompiler"], "-q", "p.gdl", "in.ttf", "out.ttf"], cwd=d, env=env, preexec_fn=pre, capture_output=True)
+        after = snapshot(d)
+        err = open(os.path.join(d, "gdlerr.txt"), errors="replace").read() if os.path.exists(os.path.join(d, "gdlerr.txt")) else ""
+        changed = sorted(k for k in set(before) | set(after) if before.get(k) != after.get(k) and k not in ("gdlerr.txt", "out.ttf"))
+        out.append((lim, p.returncode, "out.ttf" in after, "error(135)" in err, changed))
+    shutil.rmtree(d, ignore_errors=True)
+    return size, out
